@@ -1613,8 +1613,19 @@ func (rr *repRun) afterStep(op Op) {
 		return
 	}
 	// C10: revision counter
+	// read from the file, not through Replica.GetRevisionCounter(): that accessor re-reads the file and
+	// REFRESHES the in-memory copy the next increment starts from, so looking through it after every step
+	// repaired a stale copy before it could do harm (C10-f). Every fourth step still goes through the accessor.
 	var rev int64
-	rr.do("getrev", func() { rev = r.GetRevisionCounter() })
+	if rr.step%4 == 1 {
+		rr.do("getrev", func() { rev = r.GetRevisionCounter() })
+	} else {
+		var rerr error
+		if rev, rerr = readRevisionFile(rr.dir); rerr != nil {
+			rr.viol("C10", "revision-counter-unreadable", "after %s: %v", op.String(), rerr)
+			return
+		}
+	}
 	if rev != m.revision {
 		rr.viol("C10", "revision-counter-mismatch", "after %s: persisted revision counter %d, expected %d (mode %s)", op.String(), rev, m.revision, m.mode)
 		return
